@@ -841,6 +841,20 @@ def startTask(logger=None, action_type="", _serializers=None, **fields):
     return action
 
 
+def _start_action_with_fields(action_type, fields):
+    """
+    Like L{start_action} with the default logger and no serializers, but takes
+    the start message's fields as a dictionary so any field name is allowed.
+    """
+    parent = current_action()
+    if parent is None:
+        action = Action(None, str(uuid4()), TaskLevel(level=[]), action_type)
+    else:
+        action = parent.child(None, action_type)
+    action._start(fields)
+    return action
+
+
 class TooManyCalls(Exception):
     """
     The callable was called more than once.
@@ -933,7 +947,10 @@ def log_call(
         if include_args is not None:
             callargs = {k: callargs[k] for k in include_args}
 
-        with start_action(action_type=action_type, **callargs) as ctx:
+        # The arguments are handed over as a dictionary, not as keyword
+        # arguments: their names may coincide with start_action()'s own
+        # parameters (logger, action_type, _serializers).
+        with _start_action_with_fields(action_type, callargs) as ctx:
             result = wrapped_function(*args, **kwargs)
             if include_result:
                 ctx.add_success_fields(result=result)
